@@ -42,6 +42,9 @@ def run(ctx):
              "in int32/int16/uint8/int8 (more types in the thorough tier) and a lattice of 16-bit triples as aggregate round-trip equality "
              "events, forward values and round trips of a sub-cube judged one by one in nine element types, inverse on arbitrary (Y,Co,Cg); "
              "saturation matrix / vec3 / vec4 and luminosity on greys, cube and random colours", exhaustive=False)
+    # stage X19 (notes/X19-notes.md): gtx/color_encoding, gtx/gradient_paint, the remaining saturation / YCoCg / sRGB overloads - GlmX19.tla
+    from props import x19
+    x19.run(ctx)
     ctx.assumptions += ["libm pow is accurate to 1 ulp; the sRGB tolerances (1e-6 float, 4e-15 double) are stated in Trace_C19.tla",
                         "colour components outside [0,1], hue outside [0,360), hue of greys / near-black colours and integer triples whose "
                         "lifting overflows the element type (forward values only) constrain nothing",
